@@ -121,7 +121,7 @@ Proof.
   assert (Hpl : length (pkcs7_padded plain k) = length plain + k)
     by (unfold pkcs7_padded; rewrite app_length, repeat_length; reflexivity).
   split.
-  - unfold Aes.cbc_encrypt. rewrite Hk. cbn [negb]. rewrite masked_mod, BS_eq. fold k.
+  - unfold Aes.cbc_encrypt, cbc_encrypt_prep. rewrite Hk. cbn [negb]. rewrite masked_mod, BS_eq. fold k.
     destruct (Nat.ltb_spec (length dst) (length plain)); [lia|].
     rewrite pad_table_spec by lia.
     rewrite (copy_into_prefix dst plain) by lia.
@@ -189,7 +189,7 @@ Qed.
 Theorem cbc_key_size_errors dst x key iv : good_key key = false ->
   cbc_encrypt dst x key iv = Err E_NEWCIPHER /\ exists e, cbc_decrypt dst x key iv = Err e.
 Proof.
-  intros Hk. unfold Aes.cbc_encrypt, Aes.cbc_decrypt. rewrite Hk. cbn [negb]. split; [reflexivity|].
+  intros Hk. unfold Aes.cbc_encrypt, cbc_encrypt_prep, Aes.cbc_decrypt. rewrite Hk. cbn [negb]. split; [reflexivity|].
   destruct (_ || _); eauto.
 Qed.
 Theorem cbc_ct_length_errors dst ct key iv : length ct < 16 \/ length ct mod 16 <> 0 -> cbc_decrypt dst ct key iv = Err E_CTLEN.
